@@ -21,6 +21,11 @@ CHECKS = {
           "Random schemas with fast keyword/i64/f64 fields and nested objects up to three levels, documents with arrays of parent objects holding child arrays, and And/Or/Not/Nested filter trees (sibling Nested on one path, Nested inside Nested, dotted paths, type-mismatched clauses). Each filter is run through request.filter, bool.filter and constant_score.filter and the hit-id set must equal the harness's independent evaluator of the documented semantics.",
           "Trusted: harness/src/fmodel.rs (the documented filter semantics as read from the README). Null members of nested arrays and dotted field names inside a Nested clause are not generated (unspecified).",
           "DESIGN.md §5 C08"),
+  "C09": ("exploration",
+          "differential property-based testing (execution=wand|bmw vs execution=bm25 on the same reader)",
+          "Corpora of 30-2500 short documents over a 15-word vocabulary (posting lists spanning many blocks) in 1-3 segments with deletions and four (k1,b) settings; 12 scored query trees per corpus (terms, bool, dis_max, boosts incl. 0, multi_match, expansions, function_score, script_score, rank_feature, constant_score, phrases) with limit 1..50, optional filter, wand or bmw and block size 1..300. The pruned response must equal the exhaustive one (length, position-wise and per-id scores within 1e-5 relative, membership differing only among ties with the k-th score) and its total_hits_estimate must not exceed the exhaustive one.",
+          "Trusted: the exhaustive bm25 strategy as the reference (C10 checks it against an independent BM25 model). Float tolerance 1e-5 relative.",
+          "DESIGN.md §5 C09"),
   "C14": ("exploration",
           "metamorphic property-based testing (before/after Index::compact on generated histories, queries and filters)",
           "Generated schemas (mostly compactable, some not), histories of 1-5 commits with upserts and deletes over nested / multi-valued / null / empty values, 10 queries and 10 filter trees: live ids, stored fields and every query/filter id set are captured before and after compaction, through the same Index and a fresh open, and must be equal; segment count and tombstones are checked after a rewrite; a refusal must leave everything unchanged.",
